@@ -6,7 +6,7 @@ From Coq Require Import List NArith ZArith Bool Permutation.
 Import ListNotations.
 Require Import Verif.Lib.Wire Verif.Gen.Facts_C18 Verif.Model.C18.
 Require Import Verif.Proofs.C18_kahn Verif.Proofs.C18_build Verif.Proofs.C18 Verif.Proofs.C18_rep Verif.Proofs.C18_cycle.
-Require Import Verif.Proofs.C18_gen Verif.Proofs.C18_derivers Verif.Proofs.C18_wire Verif.Proofs.C18_args.
+Require Import Verif.Proofs.C18_gen Verif.Proofs.C18_derivers Verif.Proofs.C18_wire Verif.Proofs.C18_args Verif.Proofs.C18_make.
 
 (* the emission loop never runs out of fuel and never looks up a deleted node *)
 Theorem C18_sorted_total : forall s, sorted s <> Internal.
@@ -349,3 +349,60 @@ Theorem C18_gen_preds_scenario_judged : forall k adds,
   judge cfg_plain (decls_of cfg_plain (pred_ops k adds)) (sorted (fold_left (gen_pred_step k) adds s0)) = true.
 Proof. exact gen_preds_scenario_judged. Qed.
 Print Assumptions C18_gen_preds_scenario_judged.
+
+(* =====================================================================
+   PredicateList.make, regenerated from config/predicates.py on this run (harness/c18/translate_make.py): how the
+   ordered predicate list, the order number and the phash are computed from the sorter's output *)
+Theorem C18_gen_pl_make_is_model : forall mo o kw, gen_pl_make mo o kw = pl_make mo o kw.
+Proof. exact gen_pl_make_is_model. Qed.
+Print Assumptions C18_gen_pl_make_is_model.
+
+(* the predicates of one view / route / subscriber are created -- and therefore evaluated -- in an order that honours
+   every weighs_more_than / weighs_less_than constraint: for every sequence of add/remove calls on the predicate
+   sorter and every keyword dictionary, make() creates for each sorted name, in sorted order, one predicate per given
+   value (not_ values wrapped), feeds exactly these to the phash, and no predicate of an item is created before a
+   predicate of an item it weighs more than, nor after one of an item it weighs less than *)
+Theorem C18_gen_make_order_respects : forall c ops ordered kw mo order ps ph,
+  gen_sorted (final_state (new_sorter c) ops) = Sorted ordered ->
+  gen_pl_make mo (Sorted ordered) kw = MkOk order ps ph ->
+  (ps = flat_map (made kw) ordered /\ ph = ps) /\
+  forall d, In d (decls_of c ops) ->
+    (forall u, In u (opt_list (dafter d)) -> In u (dnames (decls_of c ops)) -> never_after ps u (dname d)) /\
+    (forall o, In o (opt_list (dbefore d)) -> In o (dnames (decls_of c ops)) -> never_after ps (dname d) o).
+Proof. exact gen_make_order_respects. Qed.
+Print Assumptions C18_gen_make_order_respects.
+
+(* =====================================================================
+   Through the outermost dispatch of the extracted runner: for every case as the harness encodes it, the model's answer
+   (run_C18 tags 0/2/4/6) fed back to the judge entry (tags 1/3/5/7) is accepted at every step *)
+Theorem C18_run_steps_judged : forall z c ops,
+  get_cfg (VI z) = Some c ->
+  run_C18 (VL [VI 1; VI z; VL (map enc_op ops); run_C18 (VL [VI 0; VI z; VL (map enc_op ops)])])
+  = VL (map (fun _ => vbool true) ops).
+Proof. exact run_C18_steps_judged. Qed.
+Print Assumptions C18_run_steps_judged.
+Example C18_run_steps_cfgs : get_cfg (VI 0) = Some cfg_plain /\ get_cfg (VI 1) = Some cfg_tweens /\ get_cfg (VI 2) = Some cfg_derivers.
+Proof. repeat split; reflexivity. Qed.
+
+Theorem C18_run_history_judged : forall ex evs,
+  run_C18 (VL [VI 3; VL (map enc_pair ex); VL (map enc_tevent evs);
+               run_C18 (VL [VI 2; VL (map enc_pair ex); VL (map enc_tevent evs)])])
+  = VL (map (fun _ => vbool true) evs).
+Proof. exact run_C18_history_judged. Qed.
+Print Assumptions C18_run_history_judged.
+
+Theorem C18_run_derivers_judged : forall adds,
+  match run_C18 (VL [VI 4; VL (map enc_tadd adds)]) with
+  | VL [_; obs] => run_C18 (VL [VI 5; VL (map enc_tadd adds); obs]) = vbool true
+  | _ => False
+  end.
+Proof. exact run_C18_derivers_judged. Qed.
+Print Assumptions C18_run_derivers_judged.
+
+Theorem C18_run_preds_judged : forall k adds,
+  match run_C18 (VL [VI 6; enc_pkind k; VL (map enc_tadd adds)]) with
+  | VL [o; ev] => run_C18 (VL [VI 7; enc_pkind k; VL (map enc_tadd adds); VL [o; ev]]) = vbool true
+  | _ => False
+  end.
+Proof. exact run_C18_preds_judged. Qed.
+Print Assumptions C18_run_preds_judged.
